@@ -267,7 +267,8 @@ func genLegacy(r *fw.Rand, lib *legacyLib) ([]byte, string) {
 			for k := r.Range(1, 4); k > 0; k-- {
 				var test any
 				json.Unmarshal(fw.Pick(r, testPool), &test)
-				cat := map[string]any{"eng": fw.Pick(r, []string{"Yes", "No", "Maybe", "Other", "Numeric", "Oui"})}
+				// (names that differ only in letter case or surrounding white space are different categories)
+				cat := map[string]any{"eng": fw.Pick(r, []string{"Yes", "No", "Maybe", "Other", "Numeric", "Oui", "yes", "YES", " Yes", "Yes ", "maybe", "Grade A", "grade a"})}
 				if r.Chance(0.4) {
 					cat["fra"] = "Peut-être"
 				}
